@@ -1303,6 +1303,8 @@ def parse_unitvalue(s="") :
     if len(tok) == 0 :
         value = 0
         units = parse_units("")
+    elif len(tok) > 2 :
+        raise ValueError("unexpected white space in the units of \""+s+"\". The value and the units must be separated by white space, and the units must not contain any.")
     else :
         value = float(tok[0])
         us = ""
